@@ -88,6 +88,11 @@ def slug(s):
     return re.sub(r'[^A-Za-z0-9_.-]+', '_', s)[:120]
 
 
+def knowns_set(knowns, obligations):
+    names = set(f['obligation'] for f, _ in knowns)
+    return [o for o in obligations if any(o == k or o.startswith(k + ' ') for k in names)]
+
+
 def main():
     ap = argparse.ArgumentParser()
     ap.add_argument('prop')
@@ -116,8 +121,25 @@ def main():
     verus_fns_verified = 0
     verus_fns_total = 0
     fn_times = {}
-    for u in units:
+    # units are independent Verus runs: run them (and each one's vacuity variant) side by side
+    def unit_task(u):
         r = R.run_unit(u)
+        vac = None
+        if not (r.status == 'undecided' and not r.failures):
+            try:
+                vac = R.vacuity_run(u)
+            except Exception as e:
+                vac = {'error': repr(e)}
+        return r, vac
+    from concurrent.futures import ThreadPoolExecutor
+    try:
+        R.ensure_deps()
+    except Exception:
+        pass   # reported per unit below
+    with ThreadPoolExecutor(max_workers=max(1, min(8, len(units)))) as ex:
+        unit_results = dict(zip(units, ex.map(unit_task, units)))
+    for u in units:
+        r, vac_u = unit_results[u]
         per_unit[u] = r
         smt_ms += r.smt_ms
         if r.status == 'undecided' and not r.failures:
@@ -187,12 +209,9 @@ def main():
         for n, st in r.functions.items():
             if st['time_us'] > 20000:
                 fn_times[n] = round(st['time_us'] / 1000.0, 1)
-        try:
-            vacuity[u] = R.vacuity_run(u)
-            if vacuity[u]['vacuous']:
-                undecided.append('%s: vacuous precondition (assert(false) verified) in %s' % (u, vacuity[u]['vacuous']))
-        except Exception as e:
-            vacuity[u] = {'error': repr(e)}
+        vacuity[u] = vac_u
+        if vac_u and vac_u.get('vacuous'):
+            undecided.append('%s: vacuous precondition (assert(false) verified) in %s' % (u, vac_u['vacuous']))
 
     # ---- extra engines registered for this property (Kani etc.)
     bounded = []
@@ -266,15 +285,22 @@ def main():
             print('UNDECIDED property=%s %s' % (prop, u))
         rc = 2
     if rc == 0:
-        print('OK property=%s obligations=%d discharged=%d units=%s verus_functions_verified=%d wall=%.1fs' % (
-            prop, len(obligations), len(discharged), ','.join(units), verus_fns_verified, wall))
+        print('OK property=%s obligations=%d discharged=%d known_finding_obligations=%d units=%s verus_functions_verified=%d wall=%.1fs' % (
+            prop, len(obligations) - len(knowns_set(knowns, obligations)), len(discharged), len(knowns_set(knowns, obligations)), ','.join(units), verus_fns_verified, wall))
 
     if not a.no_evidence:
         level = pc.get('level', 'proof')
+        # obligations that fail as a LISTED known finding (a genuine defect of the pinned tree, known_findings.json) are not part of
+        # what this run claims to have proved: they are counted apart, so that obligations == discharged says exactly
+        # "everything except the listed findings"
+        kf_names = set(f['obligation'] for f, _ in knowns)
+        is_kf = lambda o: any(o == k or o.startswith(k + ' ') for k in kf_names)
+        obligations_claimed = [o for o in obligations if not is_kf(o)]
         ev = {
             'property_id': prop, 'tier': tier, 'seed': seed, 'level': level,
             'coverage': {
-                'obligations': len(obligations), 'discharged': len(discharged),
+                'obligations': len(obligations_claimed), 'discharged': len([o for o in discharged if not is_kf(o)]),
+                'known_finding_obligations': len(obligations) - len(obligations_claimed),
                 'checker_cmd': 'python3 vp/check.py %s --tier %s  (per unit: verus gen/<unit>.rs --multiple-errors 64 --output-json --time --error-format=json --extern <real http/url/encoding_rs rlibs>)' % (prop, tier),
                 'trusted_base': trusted + pc.get('trusted_extra', []),
                 'explanation': pc.get('explanation', 'Contracts on the real functions, extracted mechanically from /repo on this run, discharged by Verus/Z3 function by function.'),
@@ -289,7 +315,7 @@ def main():
                 'undecided': undecided,
                 'vacuity_guard': vacuity,
                 'bounded': bounded,
-                'extraction_rules': 'R0 drop logging/attrs, R1 declared outline, R2 byte literals, R4 result name, R5 closure params, R6 external_body, R8 for-desugar, R9 mut params; erasure check passed for every extracted item',
+                'extraction_rules': 'R0 drop logging/attrs/cfg-off items, R1 declared outline, R2 byte literals, R4 result name, R5 closure params, R6 external_body, R7 setter macro expansion, R8 for-desugar, R9 mut params, R10 by-value writer, R11 path flattening, R12 generic struct at &mut, R13 status matches!, R14 format pieces, R15 hoisted consts (DESIGN.md 3.2); erasure check passed for every extracted item',
                 'not_decided': pc.get('not_decided', []),
             },
             'assumptions': pc.get('assumptions', []) + ['machine integers exact; usize = 64 bit', 'every item in coverage.trusted_base is assumed, not proved'],
